@@ -164,11 +164,21 @@ def make_plan(seed: int, tier: str, index: int) -> dict[str, Any]:
         if sc.random() < 0.3:
             schedule = {"mode": "writes", "seed": sc.getrandbits(32), "p": sc.choice([0.1, 0.3, 0.6]),
                         "hold": sc.choice([20, 200, 1000, 4000])}
+    predecessor = None
+    if p.random() < 0.4:
+        # another chart parsed earlier in the same process: same instruments where possible, other
+        # difficulties (nothing of it may turn up in the charts parsed afterwards)
+        insts = sorted({gen.HEADERS[h][0] for h in headers})
+        cand = [h for h in gen.ALL_HEADERS if gen.HEADERS[h][0] in insts and h not in headers]
+        ph = p.sample(cand, min(len(cand), p.randint(1, 4))) if cand else p.sample(gen.ALL_HEADERS, 2)
+        pdoc = gen.gen_doc(g, headers=ph, small=True)
+        pdoc["unknown"] = []
+        predecessor = gen.render(pdoc)
     missing = p.randrange(3)
     msecs = [s for i, s in enumerate(secs) if i != missing]
     p.shuffle(msecs)
     return {"property": PROP, "seed": seed, "sub_batch": sub, "doc": doc,
-            "n_clients": n_clients, "schedule": schedule,
+            "n_clients": n_clients, "schedule": schedule, "predecessor": predecessor,
             "variants": variants, "missing": {"dropped": gen.REQUIRED[missing],
                                               "text": gen.render_sections(msecs, newline=p.choice(["\n", "\r\n"]))}}
 
@@ -303,6 +313,13 @@ def execute(plan: dict[str, Any]) -> dict[str, Any]:
     sched = Scheduler(plan.get("schedule") or {"mode": "sequential", "seed": 0, "p_boundary": 0.0},
                       n_clients, env.PKG_DIR, preempt_lines=not env.package_uses_locks_or_threads())
     records: dict[int, Any] = {}
+    if plan.get("predecessor") and n_clients == 1:
+        try:
+            world.parse_text(plan["predecessor"])
+            probes["predecessor_chart_parsed_first"] = 1
+        except Exception:  # noqa: BLE001
+            pass
+        world.drain_log()
 
     def body_for(ci: int) -> Any:
         mine = list(range(len(plan["variants"])))[ci::n_clients]
